@@ -99,6 +99,14 @@ def stepM (st : MState) (step : List String) : MState × String :=
     (match parseStr s with
      | none => (st, "badstep")
      | some t => pushResM st (ch.pushWith (Impl.makeSanStr ch.board t)))
+  | ["pn"] =>
+    -- the null move recorded with `push_unchecked` (contract: the game is not finished, the side to move not in check)
+    if ch.isFinished then (st, "skip") else
+    (match Impl.isCheck? ch.board with
+     | some false =>
+       let (b', u) := Impl.makeMove ch.board Impl.Move.null
+       ({ st with cur := ch.finishPush b' Impl.Move.null u }, "ok")
+     | _ => (st, "skip"))
   | ["pl", s] =>
     if ch.isFinished then (st, "skip") else
     (match parseStr s with
@@ -372,6 +380,8 @@ def chainS (raw : Impl.RawBoard) (steps : List (List String)) (impl : String) : 
   | none => expect "invalid" impl
   | some p =>
     if steps.isEmpty then "-" else
+    -- a null move is not a move of the rules: scripts that record one are judged by the model correspondence alone
+    if steps.contains ["pn"] then "-" else
     let obs := impl.splitOn ";"
     if obs.length ≠ steps.length then bad "number of observations differs from number of steps" else
     let (_, verdict, _) := (steps.zip obs).foldl (fun (acc : SState × Option String × Nat) so =>
